@@ -17,7 +17,7 @@ type C18 struct{ base }
 func init() { register(&C18{base{id: "C18", level: "exploration"}}) }
 
 func (c *C18) Rule() string {
-	return "one run = one seeded history of 1..200 Update calls on one poseidon_tree.PoseidonTree (depth 1..32) in lock-step with an independent sparse leaf-array model (iden3 Poseidon, own recursion); evaluations = updates checked; a case is non-trivial when the update overwrites or neighbours an earlier write (shares a subtree of height <= 3) or targets an extreme index; distinct = (depth, index class, overwrite/zero/neighbour flags, history-length bucket); every tenth run is a World L run: 2..4 caller tasks replay their own histories on their own trees, interleaved by the tape at every statement of the instrumented tree code"
+	return "one run = one seeded history of 1..200 Update calls on one poseidon_tree.PoseidonTree (depth 1..32) in lock-step with an independent sparse leaf-array model (iden3 Poseidon, own recursion); evaluations = updates checked; a case is non-trivial when the update overwrites or neighbours an earlier write (shares a subtree of height <= 3) or targets an extreme index; distinct = (depth, index class, overwrite/zero/neighbour flags, history-length bucket); every tenth run is a World L run: 2..4 caller tasks replay their own histories on their own trees, interleaved by the tape at every statement of the instrumented tree code; one run in 64 is a long history: 40 000..100 000 node writes on one tree over a working set of 48 leaves, each path checked against the tree's own roots, the model's root every 61 updates"
 }
 func (c *C18) Assumptions() []string {
 	return []string{"iden3 go-iden3-crypto Poseidon is the reference hash (the repository's tree uses the same library; left/right order, empty-subtree table, path order and recursion are re-derived independently)", "PoseidonTree.Update takes a Go int index: indices up to 2^32-1 are exercised on this 64-bit platform only"}
